@@ -403,6 +403,32 @@ def r2_implicit(ctx):
                          '' if ok else 'index into the token without a non-empty guard: a segment consisting of blanks is empty after lstrip() and raises IndexError')
     if nb < 1:
         raise AnalysisError('X12Reader.__iter__: token indexing not found')
+    # (l) a helper that answers None for None (escape_html_chars) used as an operand of `+` / an item of join: its argument must
+    #     be something that cannot be None there.  The identifier of a segment can: a segment of blanks only has none.
+    fe = ctx.func('error_html', 'escape_html_chars')
+    none_through = any(isinstance(r_, ast.Return) and (r_.value is None or A.const(r_.value) is None) and isinstance(r_.value, (ast.Constant, type(None)))
+                       for r_ in ast.walk(fe))
+    nl = 0
+    if none_through:
+        for q_, f_ in ctx.functions('error_html'):
+            for x in ast.walk(f_):
+                ops = []
+                if isinstance(x, ast.BinOp) and isinstance(x.op, ast.Add):
+                    ops = [x.left, x.right]
+                elif isinstance(x, ast.Call) and isinstance(x.func, ast.Attribute) and x.func.attr == 'join' and x.args and isinstance(x.args[0], (ast.List, ast.Tuple)):
+                    ops = list(x.args[0].elts)
+                for o_ in ops:
+                    if not (isinstance(o_, ast.Call) and A.call_target(o_) == (None, 'escape_html_chars') and o_.args):
+                        continue
+                    a_ = o_.args[0]
+                    nl += 1
+                    p_ = path_of(a_) or ''
+                    safe = A.is_str(a_) or isinstance(a_, (ast.JoinedStr, ast.BinOp)) or (isinstance(a_, ast.BoolOp) and isinstance(a_.op, ast.Or) and A.is_str(a_.values[-1])) \
+                        or isinstance(a_, ast.IfExp) or p_.startswith('self.') and p_.endswith('_term') or p_ in ('self.eol',) \
+                        or (isinstance(a_, ast.Call) and isinstance(a_.func, ast.Attribute) and a_.func.attr in ('format', 'join', 'strip', 'replace'))
+                    yield Ob(km('(l) error_html:%s escape_html_chars(%s) as an operand' % (q_, norm(a_, 40))), safe, ctx.floc(f_, o_),
+                             '' if safe else 'escape_html_chars answers None for None and `%s` can be None (a segment of blanks only has no identifier): '
+                             'None + str raises TypeError out of validation when the HTML report is requested' % norm(a_, 40))
     # (k) text taken from a segment (get_value: None when the element is absent) or still at its initial None, kept in a
     #     local of a driver: slicing it or calling a string method on it needs a truth / None test on the way, or a fence
     for mod, qual in (('x12n_document', 'x12n_document'), ('x12context', 'X12ContextReader.iter_segments')):
